@@ -163,12 +163,12 @@ def run_separable(case, rec):
     for k in range(case["nfields"]):
         Tmax = TMAXS[k % 3]
         r_ = 1 + k % 3
-        B = 2 + k % 3
+        B = 1 + k % 4  # from a single point per axis (fewer points than coordinates) upwards
         if eqn in ("burgers", "fisher", "ou"):
             dd = {"burgers": 1, "ou": 2}.get(eqn, d)
             D = 1 + dd
             if D == 3:
-                B = 2 + k % 2
+                B = 1 + k % 3
             sf = fields.SepField(1000 * case["seed"] + k, D, r_, 1)
             sn = nets.SNet(sf, "nonstatio_PDE")
             cols = rng.uniform(0.1, 1.2, (B, D))
